@@ -36,6 +36,7 @@ fn main() {
       nbeh: case["cfg"]["nbeh"].as_u64().unwrap_or(0) as usize,
       nhotc: case["cfg"]["nhotc"].as_u64().unwrap_or(0) as usize,
       pre: case["pre"].as_array().unwrap().iter().map(Stim::from_json).collect(),
+      post: case["post"].as_array().map(|a| a.iter().map(Stim::from_json).collect()).unwrap_or_default(),
       threads: case["threads"].as_array().unwrap().iter().map(|t| t.as_array().unwrap().iter().map(Stim::from_json).collect()).collect(),
     };
     // --replay "<t1,t2,...>": run the given schedule once and print what happened
